@@ -50,6 +50,22 @@ type Report struct {
 
 	// only: when non-nil, rules outside the set are ignored (a property reusing part of another property's check)
 	only map[string]bool
+	// keep: when non-nil, of the rules in `only` just the obligations it accepts are recorded (a property for which
+	// only some instances of the other property's rule are necessary conditions)
+	keep func(rule, construct string) bool
+}
+
+// SubWhere is Sub restricted to the obligations keep accepts.
+func (r *Report) SubWhere(f func(w *World, r *Report), keep func(rule, construct string) bool, rules ...string) {
+	saveKeep := r.keep
+	if saveKeep != nil {
+		outer := saveKeep
+		inner := keep
+		keep = func(rule, construct string) bool { return outer(rule, construct) && inner(rule, construct) }
+	}
+	r.keep = keep
+	r.Sub(f, rules...)
+	r.keep = saveKeep
 }
 
 // Sub runs another property's check keeping only the named rules.
@@ -95,6 +111,9 @@ func (r *Report) Rule(name, statement string, floor int) {
 
 func (r *Report) add(rule, construct, where, what string, ok bool, why string) *Obligation {
 	if r.only != nil && !r.only[rule] {
+		return &Obligation{Rule: rule, OK: ok}
+	}
+	if r.keep != nil && !r.keep(rule, construct) {
 		return &Obligation{Rule: rule, OK: ok}
 	}
 	st := r.Rules[rule]
